@@ -21,7 +21,8 @@ META = {
             "client declined one and never a forced pack on 1.17+, the modern handler keeps one queue per pack id, and "
             "a client response is reported to the backend iff the answered pack came from the backend. TLC checks "
             "Velocity's handler semantics against these relations and exports all call histories (exhaustive for "
-            "short ones, simulated longer ones) for the three handler kinds; each history is replayed on gate's real "
+            "short ones, simulated longer ones) for client protocols 754, 755, 756, 764, 765 (both sides of the 1.17 and 1.20.3 "
+            "handler switches; the handler kind is the spec's ModeOf(protocol)); each history is replayed on gate's real "
             "handler with a recording fake player, every call under a watchdog, and TLC validates the recorded calls "
             "line by line. Histories are the quantifier, so exhaustive short histories over all statuses plus random "
             "longer ones is the right level.",
@@ -44,10 +45,10 @@ ALL = ["accepted", "declined", "success", "failed", "downloaded", "invalidUrl", 
 CORE = ["accepted", "declined", "success", "discarded"]
 
 
-def cfg(modes, packs, statuses, maxlen, initprev="none", emit=True):
-    return ("SPECIFICATION Spec\nCONSTANTS\n  Modes = {%s}\n  PackNames = {%s}\n  Statuses = {%s}\n"
+def cfg(versions, packs, statuses, maxlen, initprev="none", emit=True):
+    return ("SPECIFICATION Spec\nCONSTANTS\n  Versions = {%s}\n  PackNames = {%s}\n  Statuses = {%s}\n"
             "  MaxLen = %d\n  InitPrev = \"%s\"\nINVARIANTS OnePrompt AutoOnlyAfterDecline%s\nPROPERTY Refines\n"
-            % (", ".join('"%s"' % m for m in modes), ", ".join('"%s"' % p for p in packs),
+            % (", ".join(str(v) for v in versions), ", ".join('"%s"' % p for p in packs),
                ", ".join('"%s"' % s for s in statuses), maxlen, initprev, " Emit" if emit else ""))
 
 
@@ -97,13 +98,15 @@ def run(ctx):
 
     rnd = random.Random(ctx.seed)
     modes = ["legacy", "legacy117", "modern"]
+    # client protocols on both sides of every handler switch: 1.16.4 | 1.17, 1.17.1 ... 1.20.2 | 1.20.3
+    versions = [754, 755, 756, 764, 765]
     hists, model_states = [], 0
     if ctx.quick:
         plans = [(["A", "C"], CORE, 3, None, 0), (["A", "B", "C", "D"], ALL, 6, 120, 1000)]
     else:
         plans = [(["A", "C"], CORE, 4, None, 0), (["B", "D"], ALL, 3, None, 0), (["A", "B", "C", "D"], ALL, 7, 1500, 20000)]
     for packs, statuses, maxlen, sim, cap in plans:
-        r = ctx.tlc("ResourcePack", cfg_text=cfg(modes, packs, statuses, maxlen), workers=1, timeout=900,
+        r = ctx.tlc("ResourcePack", cfg_text=cfg(versions, packs, statuses, maxlen), workers=1, timeout=900,
                     simulate=sim, depth=(maxlen + 1) if sim else None)
         hs = r.printed_json("HIST")
         if not hs:
@@ -118,7 +121,7 @@ def run(ctx):
         ctx.log("ResourcePack.tla packs=%s statuses=%d len=%d%s: %d states, %d histories (%s)"
                 % ("".join(packs), len(statuses), maxlen, " simulated" if sim else "", r.distinct, len(hs),
                    ", ".join("%s %d" % (m, sum(1 for h in hs if h["mode"] == m)) for m in modes)))
-    hists.sort(key=lambda h: (h["mode"], json.dumps(h["h"])))
+    hists.sort(key=lambda h: (h["ver"], json.dumps(h["h"])))
     nhist = len(hists)
     files = hists
     with open(ctx.path("hist.json"), "w") as fh:
@@ -135,9 +138,9 @@ def run(ctx):
         ctx.notes.append("%d watchdog expiries did not reproduce on the re-run (not a verdict)" % st["unconfirmed_hangs"])
     rejected, matched, tstates = ctx.validate_runs("ResourcePack_Trace", recs, max_rejects=ctx.pick(12, 30))
     for rj in rejected:
-        mode, bad = rj["run"][0]["mode"], rj["bad"] or {}
+        mode, bad = "%s@%d" % (rj["run"][0]["mode"], rj["run"][0]["ver"]), rj["bad"] or {}
         prior = [describe(x) for x in rj["run"][1:rj["bad_index"]]]
-        state = abstract_state(mode, rj["run"][1:rj["bad_index"]])
+        state = abstract_state(rj["run"][0]["mode"], rj["run"][1:rj["bad_index"]])
         if not bad.get("returned", True):
             sym = "hung"
         elif bad.get("panicked"):
